@@ -1409,4 +1409,91 @@ example : checkExe "/i1".toList ⟨none, [], ["/i1/bin/tool.sh".toList]⟩ "bin/
 example : fsOps [.validate "/i1".toList [exProbeTool], .fs (.remove "/i1/input/a".toList), .validate [] []] =
     [.remove "/i1/input/a".toList] := by decide
 
+/-! ### the order in which the references are substituted in the arguments
+
+The spelling of a reference may be, at word boundaries, the tail of the spelling of another one (`prod/out.txt:ref`
+inside `x-prod/out.txt:ref`: `-` is a word boundary).  The substitutions are made one after the other, so the longer
+spelling has to go first: afterwards nothing of it is left for the shorter one to rewrite.  `sortRefs` is that order,
+for every list of references. -/
+
+/-- the order of the references by decreasing length of the (absolute) spelling -/
+def LongestFirst (l : List Ref) : Prop := l.Pairwise (fun a b => b.abs.length ≤ a.abs.length)
+
+private theorem insertLen_longestFirst (x : Ref) (l : List Ref) (h : LongestFirst l) :
+    LongestFirst (insertLen x l) := by
+  unfold LongestFirst at h ⊢
+  induction l with
+  | nil => simp [insertLen]
+  | cons y ys ih =>
+    simp only [insertLen]
+    split
+    · rename_i hle
+      have h' := List.pairwise_cons.mp h
+      refine List.pairwise_cons.mpr ⟨?_, h⟩
+      intro b hb
+      rcases List.mem_cons.mp hb with hb | hb
+      · subst hb; exact hle
+      · exact Nat.le_trans (h'.1 b hb) hle
+    · rename_i hlt
+      have h' := List.pairwise_cons.mp h
+      refine List.pairwise_cons.mpr ⟨?_, ih h'.2⟩
+      intro b hb
+      rcases (mem_insertLen x b ys).mp hb with hb | hb
+      · subst hb; omega
+      · exact h'.1 b hb
+
+/-- **References are substituted longest spelling first**, whatever the references are called and in whatever order
+the component states them: in `sortRefs refs` (the order of both loops of `_compute_memoization_info`) no reference
+comes before a reference with a longer spelling. -/
+theorem references_substituted_longest_first (refs : List Ref) : LongestFirst (sortRefs refs) := by
+  induction refs with
+  | nil => simp [sortRefs, LongestFirst]
+  | cons x xs ih => exact insertLen_longestFirst x _ ih
+
+/-- … in particular a reference never follows a reference whose spelling is strictly shorter: the order is never
+`… short … long …` (as it is, for `stage0.prod/f:ref` and `stage0.x-prod/f:ref`, in the order of the names). -/
+theorem shorter_spelling_never_first (refs l1 l2 l3 : List Ref) (short long : Ref)
+    (h : sortRefs refs = l1 ++ short :: (l2 ++ long :: l3)) : long.abs.length ≤ short.abs.length := by
+  have hp := references_substituted_longest_first refs
+  unfold LongestFirst at hp
+  rw [h] at hp
+  have h2 := (List.pairwise_append.mp hp).2.1
+  exact (List.pairwise_cons.mp h2).1 long (by simp)
+
+private theorem isPrefixOf_longer (pat l : S) (h : l.length < pat.length) : pat.isPrefixOf l = false := by
+  cases hp : pat.isPrefixOf l with
+  | false => rfl
+  | true =>
+    have := (List.isPrefixOf_iff_prefix.mp hp).length_le
+    omega
+
+private theorem subWordAux_shorter_text (pat rep : S) :
+    ∀ (s : S) (prev : Option Char), s.length < pat.length → subWordAux pat rep 0 prev s = s := by
+  intro s
+  induction s with
+  | nil => intro prev _; simp [subWordAux]
+  | cons c s ih =>
+    intro prev h
+    have hp := isPrefixOf_longer pat (c :: s) h
+    simp only [subWordAux, hp, Bool.false_and, Bool.false_eq_true, if_false]
+    rw [ih (some c) (by simp at h; omega)]
+
+/-- the substitution of a spelling leaves every text alone that is shorter than the spelling: a reference can only
+be rewritten by the substitution of a reference that is at most as long — with `references_substituted_longest_first`:
+only by its own substitution, or by one that comes later. -/
+theorem subWord_of_shorter_text (pat rep s : S) (h : s.length < pat.length) : subWord pat rep s = s := by
+  unfold subWord
+  split
+  · rfl
+  · exact subWordAux_shorter_text pat rep s none h
+
+example : LongestFirst (sortRefs
+    [⟨"stage0.prod/f:ref".toList, "prod/f:ref".toList, "ref".toList, "f".toList, .prodFile 0 (some [])⟩,
+     ⟨"stage0.x-prod/f:ref".toList, "x-prod/f:ref".toList, "ref".toList, "f".toList, .prodFile 1 (some [])⟩])
+    ∧ ((sortRefs
+    [⟨"stage0.prod/f:ref".toList, "prod/f:ref".toList, "ref".toList, "f".toList, .prodFile 0 (some [])⟩,
+     ⟨"stage0.x-prod/f:ref".toList, "x-prod/f:ref".toList, "ref".toList, "f".toList, .prodFile 1 (some [])⟩]).map
+      (·.rel)) = ["x-prod/f:ref".toList, "prod/f:ref".toList] :=
+  ⟨references_substituted_longest_first _, by decide⟩
+
 end St4sd.C16
